@@ -50,6 +50,11 @@ CHECKS = {
                 text="For each numeric operator x type: interp(a,b) == synth(a,b) == spec(a,b) for all 32-bit arguments in the defined domain; every obligation "
                      "is a solver unsat with a reachable witness twin. String operators and range generators are outside; ^ only as equality of back ends.",
                 ref="DESIGN.md#c24", note=K_NOTE),
+    "C09": R("Per recursive stratum of the untransformed RAM: from an arbitrary loop-head state satisfying the semi-naive invariant, one execution of the "
+             "real loop body yields exactly T(main)\\main, continues iff that is non-empty, updates main/delta/new correctly and reaches the insert "
+             "exactly once per body combination containing a delta tuple (integer counting identity); base case proved too. One inductive step covers "
+             "any number of iterations; bounded in the universe size only.", "DESIGN.md#c09", cat="proof",
+             tech="inductive invariant checking with z3: one symbolic execution of the real RAM loop body from an arbitrary loop-head state, counting identity for exactly-once"),
     "C10": R("Choice-domain contract (functional, sound, maximal) decided on the final database of the emitted RAM for every input database in "
              "the bound, three scan orders, -j1/-j8 RAM.", "DESIGN.md#c10", cat="other"),
     "C11": R("Subsumption contract (no dominated tuple, only derivable tuples, minimal tuples for monotone-cost programs) decided on the emitted RAM "
